@@ -44,10 +44,10 @@ C_notnotsel1 == S_not \o <<32>> \o S_not \o <<32>> \o N_sel1
 Perms == {<<"not", "and", "or">>, <<"not", "or", "and">>, <<"and", "not", "or">>,
           <<"and", "or", "not">>, <<"or", "not", "and">>, <<"or", "and", "not">>}
 MkCfg(prec, paren, sep, orin, andin, inwild, sw, ew, ct, wm, cs, nexists, cidr, noteq, special) ==
-    [prec |-> prec, paren |-> paren, sep |-> sep, orin |-> orin, andin |-> andin, inwild |-> inwild,
+    [ts |-> TRUE, prec |-> prec, paren |-> paren, sep |-> sep, orin |-> orin, andin |-> andin, inwild |-> inwild,
      sw |-> sw, ew |-> ew, ct |-> ct, wm |-> wm, cs |-> cs, nexists |-> nexists, cidr |-> cidr,
      noteq |-> noteq, allowspecial |-> special]
-FullK == [prec : Perms, paren : BOOLEAN, sep : {1, 2}, orin : BOOLEAN, andin : BOOLEAN, inwild : BOOLEAN,
+FullK == [ts : BOOLEAN, prec : Perms, paren : BOOLEAN, sep : {1, 2}, orin : BOOLEAN, andin : BOOLEAN, inwild : BOOLEAN,
           sw : BOOLEAN, ew : BOOLEAN, ct : BOOLEAN, wm : BOOLEAN, cs : {"none", "match", "full"},
           nexists : BOOLEAN, cidr : BOOLEAN, noteq : BOOLEAN, allowspecial : BOOLEAN]
 Std == <<"not", "and", "or">>
